@@ -304,9 +304,11 @@ Definition gfx_step (kind wPix hPix cw ch : Z) (g : gworld) (o : hop) : option (
                 (0, cellsW, cellsH, nw, nh, 0, 0, 0, 0, 0))
       end
   | HShow ww wh =>
-      (* Draw: "if k.w > w || k.h > h { return }"; a Sixel also returns when buf is empty *)
-      let fits := negb ((ww <? o_w s) || (wh <? o_h s)) in
+      (* Draw: "if k.w > w || k.h > h { return }"; a Sixel also returns when buf is empty, a
+         KittyImage when it has no cells ("if k.w == 0 || k.h == 0 { return }") *)
+      let inwin := negb ((ww <? o_w s) || (wh <? o_h s)) in
       if kind =? 2 then
+        let fits := negb ((o_w s =? 0) || (o_h s =? 0)) && inwin in
         (* Refresh: every placement of graphicsLast is deleted, every one of graphicsNext written:
            CUP, then writeTo = (if !uploaded { write buf; uploaded = true; buf.Reset() }; a=p) *)
         let sends := fits && negb (o_uploaded s) in
@@ -319,16 +321,17 @@ Definition gfx_step (kind wPix hPix cw ch : Z) (g : gworld) (o : hop) : option (
                b2z (fits && negb (opic_eqb term' None) && opic_eqb term' (g_lastpic g))))
       else
         (* deleteFn writes nothing; writeTo writes buf, which stays *)
-        let placed := fits && negb (opic_eqb (o_buf s) None) in
+        let placed := inwin && negb (opic_eqb (o_buf s) None) in
         Some ({| g_obj := s; g_placed := placed; g_term := g_term g; g_lastpic := g_lastpic g |},
               (0, o_w s, o_h s, 0, 0, b2z placed, b2z placed,
                if placed then pic_w (o_buf s) else 0, if placed then pic_h (o_buf s) else 0,
                b2z (placed && opic_eqb (o_buf s) (g_lastpic g))))
   | HDestroy =>
       if kind =? 2 then
-        (* writes a=d,d=I,i=id to the console: the terminal forgets the picture; no field changes *)
-        Some ({| g_obj := s; g_placed := g_placed g; g_term := None; g_lastpic := g_lastpic g |},
-              (0, o_w s, o_h s, 0, 0, 1, 0, 0, 0, 0))
+        (* writes a=d,d=I,i=id to the console: the terminal forgets the picture; k.w, k.h = 0, 0 *)
+        Some ({| g_obj := {| o_w := 0; o_h := 0; o_uploaded := o_uploaded s; o_buf := o_buf s |};
+                 g_placed := g_placed g; g_term := None; g_lastpic := g_lastpic g |},
+              (0, 0, 0, 0, 0, 1, 0, 0, 0, 0))
       else
         (* buf.Reset() *)
         Some ({| g_obj := {| o_w := o_w s; o_h := o_h s; o_uploaded := o_uploaded s; o_buf := None |};
@@ -357,12 +360,14 @@ Fixpoint gfx_exec (kind wPix hPix cw ch : Z) (g : gworld) (ops : list hop) : opt
               end
   end.
 
-(* the box of the last Resize *)
-Fixpoint last_box (acc : option (Z * Z)) (ops : list hop) : option (Z * Z) :=
+(* the box that decides the cell size: that of the last Resize; None (no cells) before the first
+   Resize and, for a KittyImage, after Destroy *)
+Fixpoint last_box (kind : Z) (acc : option (Z * Z)) (ops : list hop) : option (Z * Z) :=
   match ops with
   | [] => acc
-  | HResize w h :: t => last_box (Some (w, h)) t
-  | _ :: t => last_box acc t
+  | HResize w h :: t => last_box kind (Some (w, h)) t
+  | HShow _ _ :: t => last_box kind acc t
+  | HDestroy :: t => last_box kind (if kind =? 2 then None else acc) t
   end.
 
 (* ------------------------------------------------------------------ the property on one observed history *)
@@ -401,7 +406,8 @@ Definition hspec_destroy (sp : hspec) : hspec :=
   {| hs_cur := None; hs_w := hs_w sp; hs_h := hs_h sp; hs_term := None;
      hs_resized := hs_resized sp; hs_placed := hs_placed sp |}.
 
-(* Show: an image with a current picture whose cells fit the window is placed (once, at the window's
+(* Show: CellSize() is still what the last Resize reported (as long as there is a current picture);
+   an image with a current picture whose cells fit the window is placed (once, at the window's
    origin, with its cell size), and the terminal then shows exactly the current picture; its data are
    transmitted when the terminal does not hold them, at most once, and not at all when nothing was
    resized since they were sent (a sixel string is the data: sent with every write).  Otherwise
@@ -409,7 +415,8 @@ Definition hspec_destroy (sp : hspec) : hspec :=
    deleted (kitty; a sixel placement has no deletion), and nothing else is. *)
 Definition show_ok (kind : Z) (sp : hspec) (ww wh : Z) (ob : hobs) : bool :=
   let '(oc, cellsW, cellsH, dels, _, placed, sent, dw, dh, same) := ob in
-  (oc =? 0) && (cellsW =? hs_w sp) && (cellsH =? hs_h sp) &&
+  (oc =? 0) &&
+  (opic_eqb (hs_cur sp) None || ((cellsW =? hs_w sp) && (cellsH =? hs_h sp))) &&
   (dels =? (if kind =? 2 then b2z (hs_placed sp) else 0)) &&
   (if hspec_places sp ww wh
    then (placed =? 1) && (same =? 1) && (dw =? pic_w (hs_cur sp)) && (dh =? pic_h (hs_cur sp)) &&
@@ -434,10 +441,11 @@ Fixpoint gfxhist_ok (kind wPix hPix cw ch : Z) (sp : hspec) (tr : list (hop * ho
       gfxhist_ok kind wPix hPix cw ch (hspec_destroy sp) t
   end.
 
-(* Guard of the finding kitty-no-encoding: a KittyImage is shown while it has no current picture
-   (before the first Resize, after a Resize whose picture is empty, after Destroy).  KittyImage.Draw
-   has no test for that: it places the image with whatever the terminal holds.  Decided on the
-   calls and the picture sizes alone. *)
+(* Former guard (defect kitty-no-encoding, fixed in /repo by "KittyImage.Draw places nothing while
+   the image has no cells"): a KittyImage is shown while it has no current picture (before the first
+   Resize, after a Resize whose picture is empty, after Destroy).  No theorem needs it any more; it
+   is kept for the statement of C20_gfx_model_ok_guarded and for the witness about the code before
+   the fix. *)
 Fixpoint no_encoding_guard (kind : Z) (cur : bool) (tr : list (hop * hobs)) : bool :=
   match tr with
   | [] => false
@@ -489,12 +497,42 @@ Definition gtrace (steps : list gstep) : list (hop * hobs) := map (fun st => (gs
 Definition c20_gfxhist_mismatches (cases : list gfxhist_case) : list Z :=
   bad_indices (fun c => negb (gfxhist_agree c)) cases.
 
-(* the unguarded statement *)
 Definition c20_gfxhist_violations (cases : list gfxhist_case) : list Z :=
   bad_indices (fun c => let '(kind, wPix, hPix, cw, ch, steps) := c in
                         negb (gfxhist_ok kind wPix hPix cw ch hspec0 (gtrace steps))) cases.
 
-(* the cases under the guard of the finding kitty-no-encoding *)
-Definition c20_gfxhist_known (cases : list gfxhist_case) : list Z :=
-  bad_indices (fun c => let '(kind, _, _, _, _, steps) := c in
-                        no_encoding_guard kind false (gtrace steps)) cases.
+(* ------------------------------------------------------------------ the code before the fix
+
+   KittyImage.Draw without the zero-cell test and Destroy without "k.w, k.h = 0, 0" (image.go before
+   "fix: KittyImage.Draw places nothing while the image has no cells"), for the witness
+   C20_kitty_no_encoding_refuted only. *)
+Definition kitty_step_old (wPix hPix cw ch : Z) (g : gworld) (o : hop) : option (gworld * hobs) :=
+  let s := g_obj g in
+  match o with
+  | HResize _ _ => gfx_step 2 wPix hPix cw ch g o
+  | HShow ww wh =>
+      let fits := negb ((ww <? o_w s) || (wh <? o_h s)) in
+      let sends := fits && negb (o_uploaded s) in
+      let sent := sends && negb (opic_eqb (o_buf s) None) in
+      let s' := if sends then {| o_w := o_w s; o_h := o_h s; o_uploaded := true; o_buf := None |} else s in
+      let term' := if sent then o_buf s else g_term g in
+      Some ({| g_obj := s'; g_placed := fits; g_term := term'; g_lastpic := g_lastpic g |},
+            (0, o_w s, o_h s, b2z (g_placed g), 0, b2z fits, b2z sent,
+             if fits then pic_w term' else 0, if fits then pic_h term' else 0,
+             b2z (fits && negb (opic_eqb term' None) && opic_eqb term' (g_lastpic g))))
+  | HDestroy =>
+      Some ({| g_obj := s; g_placed := g_placed g; g_term := None; g_lastpic := g_lastpic g |},
+            (0, o_w s, o_h s, 0, 0, 1, 0, 0, 0, 0))
+  end.
+
+Fixpoint kitty_run_old (wPix hPix cw ch : Z) (g : gworld) (ops : list hop) : option (list hobs) :=
+  match ops with
+  | [] => Some []
+  | o :: t => match kitty_step_old wPix hPix cw ch g o with
+              | None => None
+              | Some (g', ob) => match kitty_run_old wPix hPix cw ch g' t with
+                                 | None => None
+                                 | Some obs => Some (ob :: obs)
+                                 end
+              end
+  end.
